@@ -99,7 +99,7 @@ def cbcount(d):
 
 def gen(tier, seed):
     n = {"quick": 700, "thorough": 8000}[tier]
-    a, st = gen_prog.programs(seed * 1000003 + 2, n, max_depth=3, error_rate=0.05, features={"opt": 0.3, "callbacks": 0.1})
+    a, st = gen_prog.programs(seed * 1000003 + 2, n, max_depth=3, error_rate=0.05, features={"opt": 0.3, "callbacks": 0.1, "flat": 0.15})
     return a, st
 
 
